@@ -7,7 +7,8 @@ import numpy as np
 
 IDENT = ["a", "b", "c", "d", "e", "n1", "n2", "x", "y", "z", "node", "arr", "pts", "q", "w"]
 ODD = ["with space", "ünïcode", "数据", "a.b", "..", "data", "dim0", "dim1", "_tmp_a", "L" * 120, "0", "-", "x y z", "é",
-       "metadatabundle_v1", "old metadatabundle", "xmetadatabundle", "node", "array", "root", "Root"]
+       "metadatabundle_v1", "old metadatabundle", "xmetadatabundle", "node", "array", "root", "Root",
+       "dimensions", "dim_notes", "dim", "dim10", "datafile", "data_2", "metadata"]
 DTYPES = ["?", "i1", "u1", "i2", "u2", "i4", "u4", "i8", "u8", "f2", "f4", "f8", "c8", "c16", "S1", "S5", ">i4", ">f8"]
 CLASSES = ["Node", "Array", "PointList", "PointListArray"]
 
